@@ -324,6 +324,10 @@ func (s *syncSrvStream) Recv() (*pdpb.SyncRegionRequest, error) {
 // regions (same epoch, another leader) that came from heartbeats, i.e. with a raft term.
 var formerLeader bool
 
+// staleStats: the follower already holds every region with the same epoch and leader but older
+// flow statistics (statistics change without an epoch change).
+var staleStats bool
+
 func leaderFollower(n int, withLeader func(int) bool, incremental int, label string, endToEnd bool) (*evidence.Violation, bool, int) {
 	ctx, cancel := context.WithCancel(context.Background())
 	defer cancel()
@@ -386,6 +390,11 @@ func leaderFollower(n int, withLeader func(int) bool, incremental int, label str
 		for _, r := range regions {
 			old := r.GetMeta().Peers[(int(r.GetID())+1)%3]
 			folSrv.bc.PutRegion(core.RegionFromHeartbeat(&pdpb.RegionHeartbeatRequest{Region: r.GetMeta(), Leader: old, Term: 5}))
+		}
+	}
+	if staleStats {
+		for _, r := range regions {
+			folSrv.bc.PutRegion(r.Clone(core.SetWrittenBytes(1), core.SetWrittenKeys(1), core.SetReadBytes(1), core.SetReadKeys(1)))
 		}
 	}
 	if incremental > 0 {
@@ -469,11 +478,12 @@ func main() {
 						if inc > 0 {
 							label += fmt.Sprintf("/incremental-%d", inc)
 						}
-						if inc == 0 && e2e[n] && n > 0 && lm.name == "all-leaders" {
-							// once more with a follower that used to be the leader
-							formerLeader = true
-							v, conv, msgs := leaderFollower(n, lm.f, inc, label+"/former-leader", true)
-							formerLeader = false
+						for mode := 0; mode < 2 && inc == 0 && e2e[n] && n > 0 && lm.name == "all-leaders"; mode++ {
+							// once more with a follower that used to be the leader, and with one that
+							// holds the same regions with older flow statistics
+							formerLeader, staleStats = mode == 0, mode == 1
+							v, conv, msgs := leaderFollower(n, lm.f, inc, label+[]string{"/former-leader", "/stale-statistics"}[mode], true)
+							formerLeader, staleStats = false, false
 							cases++
 							cov.States++
 							cov.Transitions += int64(msgs + 1)
